@@ -158,6 +158,7 @@ func init() {
 			{Fn: "H_iface_chain", Fuel: 30_000_000, Tier: "quick", Reach: []string{"end"}},
 			{Fn: "H_parent_chain", Fuel: 30_000_000, Tier: "quick", Reach: []string{"end"}},
 			{Fn: "H_self_inherited", Tier: "quick", Reach: []string{"end"}},
+			{Fn: "H_scope_instance_method", Tier: "quick"},
 			{Fn: "H_like", Params: map[string]int{"small": 1}, Fuel: 30_000_000, Tier: "quickonly", Reach: []string{"end"}},
 			{Fn: "H_like", Params: map[string]int{"small": 0}, Fuel: 30_000_000, Tier: "thorough", Reach: []string{"end"}},
 			{Fn: "H_hierarchy", Params: map[string]int{"implbits": 16}, Fuel: 30_000_000, Tier: "quickonly", Reach: []string{"end"}},
@@ -385,9 +386,12 @@ func init() {
 			c14b("H_decode_total", 1, "quick"), c14b("H_decode_total", 2, "quick"), c14b("H_decode_total", 3, "quick"), c14b("H_decode_total", 4, "thorough"),
 			c14b("H_unserialize_prefixed", 1, "quick"), c14b("H_unserialize_prefixed", 2, "quick"), c14b("H_unserialize_prefixed", 3, "quick"), c14b("H_unserialize_prefixed", 4, "thorough"),
 			c14b("H_serialize_roundtrip", 0, "quick"), c14b("H_serialize_roundtrip", 1, "quick"), c14b("H_serialize_roundtrip", 2, "quick"), c14b("H_serialize_roundtrip", 3, "quick"),
+			c14b("H_unserialize_exact", 1, "quick"), c14b("H_unserialize_exact", 2, "quick"),
+			{Fn: "H_unserialize_exact", Setup: "Setup", Pkg: "verif/harness/c14b", Params: map[string]int{"n": 3, "hi": 26}, Tier: "thorough", Reach: []string{"end"}},
+			c14b("H_serialize_float", 0, "quick"),
 		},
 		Assumptions: []string{"differential oracle for protobuf: the reference library google.golang.org/protobuf/encoding/protowire executed symbolically in the same path", "text codecs run through the real builtin functions of std/php down into encoding/base64, net/url and strconv source"},
-		Outside:     []string{"JSON encode/decode and everything behind encoding/json (reflection)", "md5/hash (whole-stream digests)", "float formatting", "inputs longer than 4-6 bytes; depth-70 trees; 4 KiB inputs", "unserialize accepts-exactly-the-well-formed-inputs (only totality and round trips are claimed for serialize)"},
+		Outside:     []string{"JSON encode/decode and everything behind encoding/json (reflection)", "md5/hash (whole-stream digests)", "float formatting", "inputs longer than 4-6 bytes; depth-70 trees; 4 KiB inputs", "unserialize accepts-exactly beyond 31 contexts with a 1-2 byte window (3 thorough, without the d: contexts: strconv.ParseFloat on three symbolic bytes does not finish); objects (O:) and references are not part of the decoder"},
 		Rule: "one state = one feasible path of the real code over a fully symbolic input of the stated length; " +
 			"an assertion is discharged by an unsat answer for PC ∧ ¬assertion (all inputs on the path), " +
 			"distinct paths have pairwise disjoint path conditions",
